@@ -948,21 +948,29 @@ def ex_noise(c):
 def ex_smooth(c):
     import warnings as _w
     x, y = arr(c["x"]), arr(c["y"])
-    x0, y0 = np.array(x, copy=True), np.array(y, copy=True)
     s = c["s_f"]
     warned = [False]
+
+    def fresh():
+        """A Weaver brought into the state in which smoothing is requested: constructed, then the `pre` operations."""
+        w = Weaver(np.array(x, copy=True), np.array(y, copy=True))
+        for op in c.get("pre", []):
+            wcall(w, op)
+        return w
+    w0 = fresh()
+    x0, y0 = (np.array(v, dtype=float, copy=True) for v in w0.get())      # the input of the smoothing step
 
     def run():
         with _w.catch_warnings(record=True) as rec:
             _w.simplefilter("always")
-            w = Weaver(np.array(x, copy=True), np.array(y, copy=True))
+            w = fresh()
             w.smooth(s)
             gx, gy = w.get()
-            w2 = Weaver(np.array(x, copy=True), np.array(y, copy=True))
+            w2 = fresh()
             w2.smooth(None)
-            w3 = Weaver(np.array(x, copy=True), np.array(y, copy=True))
+            w3 = fresh()
             w3.smooth(len(y0) * float(np.var(y0)))
-            f = Weaver(np.array(x, copy=True), np.array(y, copy=True)).to_function()
+            f = fresh().to_function()
             fv = np.asarray(f(x0), dtype=float)
             fs = proc.spline_smooth(x0, y0, s)(x0)
             warned[0] = any("splrep" in str(r.message).lower() or "fitpack" in str(r.message).lower() or "s too small" in str(r.message).lower()
@@ -973,7 +981,7 @@ def ex_smooth(c):
         oc = "ok"
     except Exception as ex:  # noqa
         oc = type(ex).__name__
-    e = {k: v for k, v in c.items() if k != "s_f"}
+    e = {k: v for k, v in c.items() if k not in ("s_f", "pre")}
     if oc != "ok":
         e.update(outcome=oc, n=len(y0), dev=[], s_scaled=-1, same_x=False, same_len=False, yf=[], out=[], out_none=[], out_default=[], fun0=[], direct=[], warned=False)
         return e
